@@ -25,6 +25,14 @@ macro "bridge_frame" : tactic => `(tactic| (
       all_goals (try simp only [])
       all_goals bv_decide (config := { timeout := 120 })))
 
+/-- `Frame.Validate` (true = a non-nil error) -/
+theorem bridge_validate (f : Gen.Go.Frame) :
+    Frame_Validate_ret f = !(CanVerif.Frame.validate ⟨f.ID, f.Length, f.Data, f.IsRemote, f.IsExtended⟩) ∧ Frame_Validate_ok f = true := by
+  unfold_go
+  simp only [Frame.validate, maxID, maxExtendedID]
+  try unfold Data
+  constructor <;> bv_decide (config := { timeout := 120 })
+
 theorem bridge_sc_flags (f : Gen.Go.frame) :
     frame_isExtended_ret f = (scOf f).isExtended ∧ frame_isRemote_ret f = (scOf f).isRemote ∧
     frame_isError_ret f = (scOf f).isError ∧ frame_id_ret f = (scOf f).id ∧
